@@ -52,7 +52,7 @@ Require Import Grits.spec.Sax Grits.proofs.Causality Grits.proofs.SaxRefine Grit
 Require Import Grits.Expand Grits.TcTop Grits.spec.RtTyping Grits.spec.Topo Grits.proofs.RtTheorems Grits.proofs.RtTcSyn
                Grits.proofs.TopoLin Grits.proofs.TopoStep Grits.proofs.TopoReach Grits.proofs.AsyncSync Grits.proofs.SaxTyped Grits.proofs.DeterminismAll
                Grits.proofs.InitAccept Grits.proofs.SaxAccept Grits.proofs.InvAll Grits.proofs.SaxDrop Grits.proofs.SaxSplit
-               Grits.proofs.DeterminismNP Grits.proofs.SaxNP Grits.spec.SaxInit2 Grits.proofs.SaxTwo.
+               Grits.proofs.DeterminismNP Grits.proofs.SaxNP Grits.spec.SaxInit2 Grits.proofs.SaxTwo Grits.proofs.DeterminismNPCfree.
 
 Theorem C04_trace_causal : forall md (p : program) fuel pick r tr,
   exec_trace fuel pick md (p_types p) (p_funs p) (init_config p) [] = (r, tr) ->
@@ -384,6 +384,28 @@ Proof. exact prints_admitted_np_fwd_text. Qed.
 Example C04_ex_np_fwd : c04_np_fwd_text ex_text = true /\ c04_np_plain_text ex_text = false.
 Proof. vm_compute. split; reflexivity. Qed.
 
+(* the contraction-free class (cfree_src_b: forwards AND drop): full statement SaxNP.prints_admitted_np_cfree_stmt; proved
+   with the extra premise "no drop in any body" (_partial).  Building blocks for the rest: in NP `drop x; k` is s_drop whose
+   pending request stays (C04_refines_np_drop), and requests that mention only channels of the configuration do not
+   disturb a step (C04_sax_step_frame); missing: that the channel of such a request keeps occurring in α c. *)
+Theorem C04_prints_admitted_np_cfree_partial : forall txt p p',
+  parse_string txt = POk p -> typecheck p = Accept p' -> in_fragment p' -> cfree_src_b p = true -> nodrop_src_b p = true ->
+  forall fuel pick, exists C',
+    sax_steps (p_funs p') true (sax_init p')
+      (labels (res_config (exec_run fuel pick NP (p_types p') (p_funs p') (init_config p')))) C'.
+Proof. exact prints_admitted_np_cfree_partial. Qed.
+
+Theorem C04_refines_np_drop : forall D F teq Δ c p n0 a x k nx c',
+  cfg_typed D F teq Δ c -> procs c !! p = Some (Proc [n0] (FDrop x k) nx) -> chan n0 = Some a ->
+  step NP D F c (Run p) = SStep c' ->
+  exists b, chan x = Some b /\ sax_step F true (α c) [] (α c' ++ [SDrop b]) /\ labels c' = labels c.
+Proof. exact refines_np_drop. Qed.
+
+Theorem C04_sax_step_frame : forall F str C ls C' G,
+  (forall z, z ∈ cfg_cids G -> z ∈ cfg_cids C) ->
+  sax_step F str C ls C' -> sax_step F str (C ++ G) ls (C' ++ G).
+Proof. exact sax_step_frame. Qed.
+
 Theorem C04_tres_from_typing : forall D F teq, teq_laws D teq -> funs_typed D F teq ->
   forall Δ c, cfg_typed D F teq Δ c -> Topo c -> tres D c.
 Proof. exact tres_typed_topo. Qed.
@@ -512,6 +534,9 @@ Print Assumptions C04_prints_admitted_np_fwd.
 Print Assumptions C04_results_unique_admitted_np_fwd.
 Print Assumptions C04_prints_admitted_np_fwd_text.
 Print Assumptions C04_ex_np_fwd.
+Print Assumptions C04_prints_admitted_np_cfree_partial.
+Print Assumptions C04_refines_np_drop.
+Print Assumptions C04_sax_step_frame.
 Print Assumptions C04_tres_from_typing.
 Print Assumptions C04_core_invariant_gives_Inv.
 Print Assumptions C04_refines_sax_core.
